@@ -357,6 +357,32 @@ def replay_merge(payload):
             TrajectoryStore.merge(out, names)
         except Exception as e:   # noqa
             problems.append(f'corrected retry after a refused merge raised {type(e).__name__}: {e}')
+        # hard crashes (the process dies, no handler runs) at the index-building and at the metadata step: a child
+        # process performs the merge and is killed there; what it left on disk must not announce a complete store
+        # unless every part is there
+        import subprocess
+        import sys
+        for point in ('_create_merged_store_index', 'json.dump'):
+            d = os.path.join(tmp, 'crash-' + point.replace('.', '-'))
+            names = make_inputs(d)
+            out = os.path.join(d, 'out.aeic-store')
+            code = ('import os, sys, json\n'
+                    'from unittest import mock\n'
+                    'from AEIC.trajectories import TrajectoryStore\n'
+                    'def die(*a, **k):\n    os._exit(7)\n'
+                    + ("TrajectoryStore._create_merged_store_index = staticmethod(die)\n" if point == '_create_merged_store_index'
+                       else "json.dump = die\nimport AEIC.trajectories.store as st\nst.json.dump = die\n")
+                    + f'TrajectoryStore.merge({out!r}, {list(names)!r})\n')
+            subprocess.run([sys.executable, '-c', code], capture_output=True, text=True, timeout=300, env=dict(os.environ))
+            meta = os.path.join(out, 'metadata.json')
+            if os.path.exists(meta) and os.path.getsize(meta) > 0:
+                have_all = all(os.path.exists(os.path.join(out, os.path.basename(p))) for p in names)
+                have_index = os.path.exists(os.path.join(out, '_index.nc'))
+                if not (have_all and have_index):
+                    problems.append(f'crash inside {point}: metadata.json announces a complete merged store but '
+                                    f'{"the flight-id index" if not have_index else "an input file"} is missing')
+            if not all_readable(names, out):
+                problems.append(f'crash inside {point}: some input no longer readable from either place')
         return dict(reproduced=bool(problems), observed=problems[:6],
                     required='inputs readable, no premature metadata, retry possible')
     finally:
